@@ -202,6 +202,13 @@ CLAIMS = {
              'optional references are cleared, a required dependent without cascade refuses the delete at the call with ConstraintError (bulk: database error) and nothing changes, and the '
              'committed database has no dangling reference (PRAGMA foreign_key_check + anti-join). Also the finite table: Attribute.linked default and the ON DELETE clause in the DDL follow the rule.',
         note='All-bounded: reported as level other, never as proved. Two entities per shape, at most two dependents; SQLite only (ON DELETE behaviour of other servers is their contract).'),
+    'C33': dict(
+        text='PARTIAL: finite proof of the hook dispatch tables (Entity._before_save_ / _after_save_ over every status) and of SessionCache.call_after_save_hooks (each recorded entry '
+             'once, in order, entries recorded meanwhile kept); BOUNDED end to end on real SQLite with a hook / statement log: 9 scripts (create with existing / new principal in both '
+             'orders, update, delete, cancelled create, re-point to a created object, delete that unlinks) x 5 ways of flushing (commit, flush(), obj.flush(), auto-flush, two rounds) x 4 hook '
+             'behaviours: for every object and kind the k-th before-hook < k-th statement < k-th after-hook with equal counts, and the committed database contains attribute edits and '
+             'objects made inside before_* hooks.',
+        note='Exactly-once across arbitrary flush rounds is history-dependent: only the enumerated scenarios (bounded).'),
 }
 
 _NOT_BUILT = 'within reach of the technique per DESIGN.md, check not built yet'
